@@ -2,21 +2,22 @@
 Path enumerations of `Market._add_order` (see SrcAddDefs.lean): `nf%` computes the pruned paths of the
 symbolic run of the *current* translated source, `rfl` makes the kernel re-check them.
 -/
+import PamsLemmas.EvalNf
 import PamsLemmas.SrcAddDefs
 
 namespace Pams.Src
 open Pams Pams.Py
 set_option maxRecDepth 1000000
 
-theorem addP_tt_limit : addPaths true true false false 0 .limit false false = nf% (addPaths true true false false 0 .limit false false) := by rfl
-theorem addP_tt_market : addPaths true true false false 0 .market false false = nf% (addPaths true true false false 0 .market false false) := by rfl
-theorem addP_tf_limit : addPaths true false false false 0 .limit false false = nf% (addPaths true false false false 0 .limit false false) := by rfl
-theorem addP_tf_market : addPaths true false false false 0 .market false false = nf% (addPaths true false false false 0 .market false false) := by rfl
-theorem addP_ft_limit : addPaths false true false false 0 .limit false false = nf% (addPaths false true false false 0 .limit false false) := by rfl
-theorem addP_ft_market : addPaths false true false false 0 .market false false = nf% (addPaths false true false false 0 .market false false) := by rfl
-theorem addP_ff_limit : addPaths false false false false 0 .limit false false = nf% (addPaths false false false false 0 .limit false false) := by rfl
-theorem addP_ff_market : addPaths false false false false 0 .market false false = nf% (addPaths false false false false 0 .market false false) := by rfl
-theorem addP_stamped : addPaths true true false true 0 .none false false = nf% (addPaths true true false true 0 .none false false) := by rfl
-theorem addP_foreign : addPaths true true false false 1 .none false false = nf% (addPaths true true false false 1 .none false false) := by rfl
+theorem addP_tt_limit : addPaths true true false false 0 .limit false false = evalnf% (addPaths true true false false 0 .limit false false) := by kernel_rfl
+theorem addP_tt_market : addPaths true true false false 0 .market false false = evalnf% (addPaths true true false false 0 .market false false) := by kernel_rfl
+theorem addP_tf_limit : addPaths true false false false 0 .limit false false = evalnf% (addPaths true false false false 0 .limit false false) := by kernel_rfl
+theorem addP_tf_market : addPaths true false false false 0 .market false false = evalnf% (addPaths true false false false 0 .market false false) := by kernel_rfl
+theorem addP_ft_limit : addPaths false true false false 0 .limit false false = evalnf% (addPaths false true false false 0 .limit false false) := by kernel_rfl
+theorem addP_ft_market : addPaths false true false false 0 .market false false = evalnf% (addPaths false true false false 0 .market false false) := by kernel_rfl
+theorem addP_ff_limit : addPaths false false false false 0 .limit false false = evalnf% (addPaths false false false false 0 .limit false false) := by kernel_rfl
+theorem addP_ff_market : addPaths false false false false 0 .market false false = evalnf% (addPaths false false false false 0 .market false false) := by kernel_rfl
+theorem addP_stamped : addPaths true true false true 0 .none false false = evalnf% (addPaths true true false true 0 .none false false) := by kernel_rfl
+theorem addP_foreign : addPaths true true false false 1 .none false false = evalnf% (addPaths true true false false 1 .none false false) := by kernel_rfl
 
 end Pams.Src
